@@ -62,6 +62,7 @@ def write_errors_to_yaml(container, yaml_doc):
                     relative=_is_relative,
                     correlation_coefficient=_err_obj._corr_coeff,
                     # TODO: public interface for _corr_coeff!
+                    enabled=_err_dict["enabled"],
                 )
             )
         elif _err_obj.__class__ is MatrixGaussianError:
@@ -72,6 +73,7 @@ def write_errors_to_yaml(container, yaml_doc):
                     type="matrix",
                     matrix_type=_mtype,
                     relative=_is_relative,
+                    enabled=_err_dict["enabled"],
                 )
             )
             if _mtype == "covariance":
@@ -111,7 +113,7 @@ def process_error_sources(container_obj, yaml_doc):
         _errs = yaml_doc.pop("errors", [])
         if not isinstance(_errs, list):
             _errs = [_errs] * container_obj.size
-        if len(_errs) > 0 and isinstance(_errs[0], float):
+        if len(_errs) > 0 and isinstance(_errs[0], (int, float, str)):
             _errs = [_errs]
         _axes = [None] * len(_errs)
 
@@ -164,6 +166,7 @@ def process_error_sources(container_obj, yaml_doc):
                 raise TypeError("Unknown error type '{}'. " "Valid: {}".format(_err_type, ("simple", "matrix")))
 
             _add_kwargs["relative"] = _err.get("relative", False)
+            _enabled = _err.get("enabled", True)
 
             # if needed, specify the axis (only for 'xy' containers)
             if _axis is not None:
@@ -174,6 +177,10 @@ def process_error_sources(container_obj, yaml_doc):
 
         # add error to data container
         container_obj = add_error_to_container(_err_type, container_obj, **_add_kwargs)
+        if not _enabled:
+            if _add_kwargs["name"] is None:
+                raise ValueError("A disabled error source needs a name!")
+            container_obj.disable_error(_add_kwargs["name"])
 
     return container_obj, yaml_doc
 
